@@ -175,11 +175,38 @@ theorem c12_nothing_due_withheld {H : Heap} (hH : HeapSpec H) {s : State} (h : R
 
 /-- A worker parked in `wait_until(d)` has `d ≤` the time point of every pending sleep, in every reachable state, for any
 number of workers and whatever other threads did in between (`schedule` of an earlier time point notifies, see
-`c12_schedule_notify`).  Under virtual time an idle worker therefore wakes no later than the earliest deadline, and
+`c12_schedule_notify`).  The steps are the code's lock regions: a worker iteration (`Op.poll`: stop check, clock read,
+`get_expired_lk`, resolve — or `wait_until`, which releases `_mx` atomically) is ONE region, so `Reachable` ranges over
+every interleaving of public calls of other threads with the worker's iterations at exactly the granularity at which
+the real threads can interleave (the harness' `worker-lock-regions` suite stalls the real worker in front of every
+acquisition of `_mx` and runs public calls there).  `c12_asis_gap_stale_wait` shows that the statement fails as soon as
+an iteration is split into two regions.  Under virtual time an idle worker therefore wakes no later than the earliest deadline, and
 `c12_nothing_due_withheld` + `c12_never_early_step` say that the iteration after the wake-up hands out exactly what is due. -/
 theorem c12_worker_not_late {H : Heap} (hH : HeapSpec H) {s : State} (h : Reachable H s) :
     ∀ p ∈ s.waits, ∀ y ∈ s.heap, y.alive = true → waitOk p.2 y.tp :=
   fun p hp y hy _ => (reachable_inv hH h).waits_ok p hp y hy
+
+/-- The statement of `c12_worker_not_late` is false for a worker whose iteration drops `_mx` between computing the time
+point and `wait_until` (the seeded change "release `_mx` around `pool->any_enqueued()`"): `sleep(10)`; first half of the
+iteration (remembers 10); another thread's `sleep(5)` falls into the gap — it finds nobody waiting to notify —; second
+half: the worker parks until the stale 10 while a sleep until 5 is pending.  On an empty vector the stale deadline is
+`time_point::max()`: the sleeper is never woken (replayed on that change: corpus/c12step_basic.txt, case 4). -/
+theorem c12_asis_gap_stale_wait :
+    let s1 := (stepPollGapA stdHeap (run stdHeap init [Op.schedule 10 1]) 0 0)
+    let s3 := stepPollGapB (step stdHeap s1.1 (Op.schedule 5 2)).1 0 (some 10)
+    let t1 := (stepPollGapA stdHeap init 0 0)
+    let t3 := stepPollGapB (step stdHeap t1.1 (Op.schedule 5 2)).1 0 none
+    (s1.2 = Res.next (some 10) ∧ s3.waits = [(0, some 10)] ∧ s3.heap.map (fun e => (e.tp, e.alive)) = [(5, true), (10, true)] ∧
+      ¬ (∀ p ∈ s3.waits, ∀ y ∈ s3.heap, y.alive = true → waitOk p.2 y.tp)) ∧
+    (t1.2 = Res.next none ∧ t3.waits = [(0, none)] ∧ t3.heap.map (fun e => (e.tp, e.alive)) = [(5, true)] ∧
+      ¬ (∀ p ∈ t3.waits, ∀ y ∈ t3.heap, y.alive = true → waitOk p.2 y.tp)) := by
+  refine ⟨⟨by decide, by decide, by decide, ?_⟩, ⟨by decide, by decide, by decide, ?_⟩⟩
+  · intro h
+    have := h (0, some 10) (by decide) { serial := 1, tp := 5, id := 2, alive := true } (by decide) rfl
+    simp [waitOk] at this
+  · intro h
+    have := h (0, none) (by decide) { serial := 0, tp := 5, id := 2, alive := true } (by decide) rfl
+    simp [waitOk] at this
 
 /-- a worker that finds nothing due parks itself with exactly the earliest pending deadline -/
 theorem c12_worker_waits_for_earliest {H : Heap} (hH : HeapSpec H) {s : State} (h : Reachable H s) (w now : Nat)
@@ -389,6 +416,12 @@ theorem c12_asis_stop_deadlock (H : Heap) (s : State) (tag : Nat) :
 
 /-! ## destruction -/
 
+/-- … and with an iteration split by an unlock/lock pair even the repaired stop callback loses the request: the
+callback takes `_mx` in the gap, finds nobody waiting, and the worker then parks for good. -/
+theorem c12_asis_gap_stop_lost :
+    Stop.Lost (Stop.run Stop.stepGap {} [Stop.Act.wLock, Stop.Act.wPollRelease, Stop.Act.sFlag, Stop.Act.sLock,
+      Stop.Act.sNotify, Stop.Act.sUnlock, Stop.Act.wRelockWait]) := ⟨by decide, by decide⟩
+
 /-- The stop request of `~scheduler()` (and of `start()` when its awaitable completes) is never lost, for every
 interleaving of the worker's and the stopper's steps and whatever the vector holds: once `request_stop()` has returned,
 the worker is not parked in `wait_until` — it has exited or is on its way to the stop check, which it fails (the flag is
@@ -400,7 +433,7 @@ theorem c12_stop_not_lost (acts : List Stop.Act) :
        Stop.step (Stop.run Stop.step {} acts) Stop.Act.wLock =
          some { Stop.run Stop.step {} acts with w := Stop.WPc.exited })) := by
   have hi : Stop.Inv (Stop.run Stop.step {} acts) :=
-    Stop.inv_run acts {} ⟨by simp, by simp, by simp⟩
+    Stop.inv_run acts {} ⟨by simp, by simp, by simp, by simp⟩
   constructor
   · rintro ⟨h1, h2⟩
     rcases hi.after (Or.inr h1) with h | h <;> rw [h2] at h <;> cases h
